@@ -1,14 +1,20 @@
 """C07 — mate and stalemate are scored only where there is really no legal move."""
 import generic as G
+from props.oracle_common import pos_stream
 PID = "C07"
 
 
 def check(tier, seed):
     q = tier == "quick"
     return G.generic_check(PID, "proof", tier, seed, coq=True,
-        rule='obligations: theorems of coq/properties/C07.v over the hand-written control-flow model, all oracles (= all feature combinations, stop moments, hash contents); tie to the source: tools/sites.py re-recognises every transcribed statement pattern in /repo and the theorem C07_sites_recognised re-checks it; correspondence: the move loops of real searches seen through the move-loop hook (per delivered move: futility-pruned / skipped / illegal / counted / stop / cut; the engine\'s movesSearched, movesPruned and classification) replayed by Terminal.sloop / qloop inside Coq (c07-cases); monitor: searches (depth 2-6) on corpus, lost endgames with few pieces and random positions under the default configuration and random combinations of the pruning switches (FP, LMP, LMR, NMP, razoring, RFP, QFP, TT, quiescence, extensions); the verif hook in alphabeta.go reports every node classified as checkmate/stalemate and the harness checks on a fresh copy that the node has no legal move and that the kind matches the check state; terminal roots must be reported as -mate / draw with no move; a case = one search',
+        rule='obligations: theorems of coq/properties/C07.v over the hand-written control-flow model, all oracles (= all feature combinations, stop moments, hash contents); tie to the source: tools/sites.py re-recognises every transcribed statement pattern in /repo and the theorem C07_sites_recognised re-checks it; correspondence: the move loops of real searches seen through the move-loop hook (per delivered move: futility-pruned / skipped / illegal / counted / stop / cut; the engine\'s movesSearched, movesPruned and classification) replayed by Terminal.sloop / qloop inside Coq (c07-cases); assumption streams: on-demand evasion generation omits no legal move and HasLegalMove is exact (the loop theorems take "every legal move is delivered" from C01/C08); monitor: searches (depth 2-6) on corpus, lost endgames with few pieces and random positions under the default configuration and random combinations of the pruning switches (FP, LMP, LMR, NMP, razoring, RFP, QFP, TT, quiescence, extensions); the verif hook in alphabeta.go reports every node classified as checkmate/stalemate and the harness checks on a fresh copy that the node has no legal move and that the kind matches the check state; terminal roots must be reported as -mate / draw with no move; a case = one search',
         streams=[dict(name="loop_model_vs_engine", kind="coqcases", shards=lambda t: 2 if t == "quick" else 16,
                       args=lambda t, s, sh, path: ["c07-cases", 30 if t == "quick" else 200, s * 1000 + 450 + sh, path], coq_timeout=3000),
+                 # assumptions of the model: GetNextMove(GenAll, evasion = in check) delivers every legal move and HasLegalMove is exact
+                 dict(name="assumption_generator_complete", kind="monitor", shards=lambda t: 4,
+                      args=lambda t, s, sh, path: ["c08-monitor", 400 if t == "quick" else 6000, s * 1000 + 470 + sh],
+                      violation_kinds=["evasion-omits-legal-move", "has-legal-move-wrong", "on-demand-differs-from-batch", "generator-panics"]),
+                 pos_stream("assumption_has_legal_move", ["has-legal-move", "legal-move-list"], npos_quick=100, npos_thorough=1000),
                  dict(name='terminal_monitor', kind="monitor", shards=lambda t: 4 if t == "quick" else 16,
                       args=lambda t, s, sh, path: ['c07-monitor', 60 if t == "quick" else 1500, s * 1000 + sh])])
 
